@@ -336,15 +336,18 @@ Proof.
 Qed.
 
 Lemma core_pow tight l r rest : Full tight l -> Full tight r -> prec l = 17 -> 16 <= prec r -> ok 16 rest ->
+  no_prefix (pr tight r ++ rest) ->
   ret (Lvl 16) ((pr tight l ++ TBin OPow :: pr tight r) ++ rest) (EBin OPow (strip l) (strip r), rest).
 Proof.
-  intros Fl Fr Pl Pr O. rewrite <- app_assoc. cbn [app].
+  intros Fl Fr Pl Pr O NP. rewrite <- app_assoc. cbn [app].
   destruct (Fl 17 (TBin OPow :: pr tight r ++ rest)) as [f1 H1];
     [pose proof (prec_le_plv l); lia|rewrite Pl; reflexivity|].
   destruct (Fr 16 rest) as [f2 H2]; [pose proof (prec_le_plv r); lia|rewrite Nat.min_l by lia; exact O|].
   cbn [fst snd] in *. destruct (ret_two _ _ _ _ _ _ _ _ _ _ H1 H2) as [A B].
   apply ret_intro with (f := max f1 f2). unfold step. change (kind 16) with KPow.
-  rewrite A. cbn [bind]. rewrite B. reflexivity.
+  rewrite A. cbn [bind].
+  destruct (pr tight r ++ rest) as [|t0 ts0]; [contradiction|].
+  tokcases t0; cbn [no_prefix] in NP; try contradiction; rewrite B; reflexivity.
 Qed.
 
 Lemma core_tern tight c t f rest : Full tight c -> Full tight t -> Full tight f ->
@@ -444,7 +447,8 @@ Proof.
       destruct (wfp_bin_inv _ _ _ _ W) as [(-> & Wl & Wr)|(K & Wl & Wr)].
       + destruct (IH' _ l ltac:(lia) Wl) as (Fl & _ & Pl). destruct (IH' _ r ltac:(lia) Wr) as (Fr & _ & Pr).
         cbn [plv prec pr strip glue] in *. rewrite strength_bin in *. cbn [level] in *.
-        apply core_pow; auto. pose proof (prec_le17 l). lia.
+        apply core_pow; auto; [pose proof (prec_le17 l); lia|].
+        apply pr_no_prefix; [lia|]. apply wfp_prec in Wr. tauto.
       + destruct (IH' _ l ltac:(lia) Wl) as (_ & Gl & Pl). destruct (IH' _ r ltac:(lia) Wr) as (Fr & _ & Pr).
         cbn [plv prec pr strip] in *. rewrite strength_bin in *.
         apply (bin_steps tight (level o) o l r rest K eq_refl Pl Pr Gl Fr).
